@@ -89,6 +89,19 @@ Definition turn_released (s : state) (c h : N) (tag : string) (qid : N) : list N
     end
   end.
 
+(* the auto-delete turn takes the first name of the list; the queue of that name is deleted - and what waits there
+   released - only if it is (still) an auto-delete queue and the delete is not refused by if-unused (it has no consumer);
+   a name whose queue is gone, is not auto-delete, or has consumers again is dropped and nothing is released *)
+Definition autodelete_released (s : state) (qid : N) : list N :=
+  match autodel s with
+  | [] => []
+  | qn :: _ =>
+    match get_queue s qn with
+    | Some qu => if q_autodel qu && negb (delete_refused qu true false) then ready_if qu qid else []
+    | None => []
+    end
+  end.
+
 Definition released (cfg : config) (fx : fixes) (s : state) (l : label) (qid : N) : list N :=
   match l with
   | LMethod c h m =>
@@ -100,11 +113,7 @@ Definition released (cfg : config) (fx : fixes) (s : state) (l : label) (qid : N
       end
     else []
   | LConsumerTurn c h tag => turn_released s c h tag qid
-  | LAutoDelete =>
-    match autodel s with
-    | [] => []
-    | qn :: _ => match get_queue s qn with Some qu => ready_if qu qid | None => [] end
-    end
+  | LAutoDelete => autodelete_released s qid
   | LSocketLoss c => conn_released s c qid
   | LHeartbeat c h => if h =? 0 then [] else conn_released s c qid
   | LRestart => held s qid
@@ -1097,15 +1106,17 @@ Lemma Good_autodelete cfg fx s :
   fx_delete_checks_first fx = true -> VI s -> Good s (fst (step cfg fx s LAutoDelete)) (released cfg fx s LAutoDelete) nil1.
 Proof.
   intros F V.
-  apply (Good_ext s _ (fun qid => match autodel s with [] => [] | qn :: _ => match get_queue s qn with Some qu => ready_if qu qid | None => [] end end) nil1);
-    [intros; reflexivity|intros; reflexivity|].
-  cbn [step]. destruct (autodel s) as [|qn rest]; [apply Good_frame; auto|]. rewrite F. cbn [negb].
+  apply (Good_ext s _ (autodelete_released s) nil1); [intros; reflexivity|intros; reflexivity|].
+  unfold autodelete_released. cbn [step]. destruct (autodel s) as [|qn rest]; [apply Good_frame; auto|]. rewrite F. cbn [negb].
   assert (E0 : view (s <| autodel := rest |>) = view s) by reflexivity.
-  pose proof (Good_vhost_delete (s <| autodel := rest |>) qn false false (VI_view _ _ E0 V)) as G.
+  change (get_queue (s <| autodel := rest |>) qn) with (get_queue s qn).
+  pose proof (Good_vhost_delete (s <| autodel := rest |>) qn true false (VI_view _ _ E0 V)) as G.
   unfold delete_released in G. change (get_queue (s <| autodel := rest |>) qn) with (get_queue s qn) in G.
-  destruct (vhost_delete_queue false (s <| autodel := rest |>) qn false false) as [[s1 e1] r1]. cbn [fst] in *.
+  destruct (get_queue s qn) as [qu|]; [|apply Good_frame; auto].
+  destruct (q_autodel qu); cbn [andb]; [|apply Good_frame; auto].
+  destruct (vhost_delete_queue false (s <| autodel := rest |>) qn true false) as [[s1 e1] r1]. cbn [fst] in *.
   eapply Good_frame_then; [exact E0|exact V|]. eapply Good_ext; [| |exact G]; intros q; [|reflexivity].
-  destruct (get_queue s qn) as [qu|]; [|reflexivity]. unfold delete_refused. cbn. reflexivity.
+  destruct (delete_refused qu true false); reflexivity.
 Qed.
 
 (* ================================================================== *)
@@ -2026,12 +2037,15 @@ Proof.
       destruct (fx_stage fx && negb (h =? 0))%bool; auto.
       apply (conn_released_nil_alive cfg fx _ c qid F4 I0). exact Ha.
   - (* LAutoDelete *)
-    cbn [released]. cbn [step] in Ha. destruct (autodel s) as [|qn rest]; auto. rewrite F4 in Ha. cbn [negb] in Ha.
-    destruct (get_queue s qn) as [qu|] eqn:Eq; auto. unfold ready_if. destruct (q_id qu =? qid) eqn:Ei; auto. apply N.eqb_eq in Ei. exfalso.
-    pose proof (vhost_delete_qv (s <| autodel := rest |>) qn false false) as Hq.
-    change (get_queue (s <| autodel := rest |>) qn) with (get_queue s qn) in Hq. rewrite Eq in Hq. unfold delete_refused in Hq. cbn [andb orb] in Hq.
+    cbn [released]. unfold autodelete_released. cbn [step] in Ha. destruct (autodel s) as [|qn rest]; auto. rewrite F4 in Ha. cbn [negb] in Ha.
+    change (get_queue (s <| autodel := rest |>) qn) with (get_queue s qn) in Ha.
+    destruct (get_queue s qn) as [qu|] eqn:Eq; auto.
+    destruct (q_autodel qu); cbn [andb]; auto. destruct (delete_refused qu true false) eqn:Er; cbn [negb]; auto.
+    unfold ready_if. destruct (q_id qu =? qid) eqn:Ei; auto. apply N.eqb_eq in Ei. exfalso.
+    pose proof (vhost_delete_qv (s <| autodel := rest |>) qn true false) as Hq.
+    change (get_queue (s <| autodel := rest |>) qn) with (get_queue s qn) in Hq. rewrite Eq, Er in Hq.
     change (qv (s <| autodel := rest |>)) with (qv s) in Hq.
-    destruct (vhost_delete_queue false (s <| autodel := rest |>) qn false false) as [[s1 e1] r1]. cbn [fst] in *.
+    destruct (vhost_delete_queue false (s <| autodel := rest |>) qn true false) as [[s1 e1] r1]. cbn [fst] in *.
     rewrite queue_alive_qv, Hq, (delete_kills s qn qu qid V Eq Ei) in Ha. discriminate.
   - (* LSocketLoss *) cbn [released]. apply (conn_released_nil_alive cfg fx s c qid F4 I). cbn [step] in Ha.
     destruct (conn_close cfg fx s c) as [s1 e1]. exact Ha.
